@@ -345,15 +345,43 @@ type drmMode struct {
 }
 
 func c10Flow(c *Ctx) {
-	s := getDrmServer()
+	getDrmServer()
 	defer cleanupDrmRoot()
+	c10FlowOn(c, "")
+	// the same round trip on a server that was started from stored representation data (written by a first start)
+	rd := drmRoot + "-repdata"
+	defer os.RemoveAll(rd)
+	cfg := app.DefaultConfig
+	cfg.VodRoot = drmRoot
+	cfg.RepDataRoot = rd
+	cfg.WriteRepData = true
+	cfg.TimeoutS = 0
+	cfg.LogLevel = "ERROR"
+	cfg.DrmCfg = drmCfg
+	if _, err := app.SetupServer(context.Background(), &cfg); err != nil {
+		return
+	}
+	cfg.WriteRepData = false
+	srv2, err := app.SetupServer(context.Background(), &cfg)
+	if err != nil {
+		c.Violate("cache-start", "server does not start from the representation data it wrote: "+err.Error(), []string{"# start from " + rd}, nil)
+		return
+	}
+	drmSrv = srv2
+	drmAssets = srv2.VerifAssets()
+	c.Count("drm-flow-on-cache-started-server")
+	c10FlowOn(c, "server started from stored representation data: ")
+}
+
+func c10FlowOn(c *Ctx, where string) {
+	s := getDrmServer()
 	r := c.Rng
 	modes := []drmMode{{"eccp_cenc", "eccp-cenc", true}, {"eccp_cbcs", "eccp-cbcs", true}}
 	for _, p := range drmCfg.Packages {
 		modes = append(modes, drmMode{"drm_" + p.Name, p.Name, false})
 	}
 	viol := func(kind, what, url string, detail any) {
-		c.Violate(kind, what, []string{"# GET " + url}, detail)
+		c.Violate(kind, where+what, []string{"# GET " + url}, detail)
 	}
 	for ai := range drmAssets {
 		a := &drmAssets[ai]
